@@ -85,6 +85,18 @@ extern "C" int h_c19_rates() {
   __vp_reached("c19r.end");
   return 0;
 }
+// C19 cross-level kernel: POINT:RATE set twice to free finite rates (the header follows the parameter through a float -> int comparison)
+extern "C" int h_c19_rates2() {
+  ezc3d::c3d c;
+  float r1 = __vp_sym_f32("prate1"), r2 = __vp_sym_f32("prate2");
+  __vp_assume(r1 >= 1.f && r1 <= 1000000.f); __vp_assume(r2 >= 1.f && r2 <= 1000000.f);
+  set_rate(c, "POINT", r1);
+  __vp_tag("rates"); __vp_obs_f32("hdr.frameRate", c.header().frameRate());
+  set_rate(c, "POINT", r2);
+  __vp_obs_f32("hdr.frameRate", c.header().frameRate()); __vp_obs_f32("POINT:RATE", c.parameters().group("POINT").parameter("RATE").valuesAsFloat()[0]);
+  __vp_reached("c19r2.end");
+  return 0;
+}
 // C15: a save that did not reach the disk is reported
 extern "C" int h_c15() {
   const int source = __vp_cfg("source");
